@@ -378,7 +378,9 @@ func (h *vxHarness) runOp(op, t1, t2 string, p1, p2 interface{}, intercept bool)
 	return outs, convs
 }
 
-var undefinedCond = regexp.MustCompile(`^\((c2|x|c1) (==|<|>|>=|<=|!=) -?[0-9]+\)=|^\(-?[0-9]+ (==|<|>|>=|<=|!=) (c2|x|c1)\)=`)
+// (the operand may be viewed through a whole-number conversion first: uint(count) >= width is the usual
+// single-comparison form of count < 0 || count >= width)
+var undefinedCond = regexp.MustCompile(`^\((c2|x|c1|conv<u?int(8|16|32|64)?>\((c2|x|c1)\)) (==|<|>|>=|<=|!=) -?[0-9]+\)=|^\(-?[0-9]+ (==|<|>|>=|<=|!=) (c2|x|c1|conv<u?int(8|16|32|64)?>\((c2|x|c1)\))\)=`)
 
 // boolEval evaluates a tiny boolean expression over x and c2.
 func boolEval(e string, x, c2 bool) (bool, bool) {
